@@ -76,13 +76,20 @@ pub fn eval_c14(case: &C14Case) -> CaseEval {
                     }
                     for (j, kind) in calls.iter().enumerate() {
                         ctl.note(1, ci, j);
-                        let r = match kind % 3 {
+                        let r = std::panic::catch_unwind(std::panic::AssertUnwindSafe(|| match kind % 3 {
                             0 => scheduler.execute(),
                             1 => scheduler.parallel_execute(Some(k)),
                             _ => scheduler.fallback_sequential(),
-                        };
+                        }));
                         ctl.note(2, ci, j);
-                        results.lock().unwrap().push((ci, j, *kind, r.map_err(|e| (e.txid, err_sig(&e.error)))));
+                        let r = match r {
+                            Ok(r) => r.map_err(|e| (e.txid, err_sig(&e.error))),
+                            Err(p) => {
+                                let msg = p.downcast_ref::<String>().cloned().or_else(|| p.downcast_ref::<&str>().map(|s| s.to_string())).unwrap_or_default();
+                                Err((usize::MAX, format!("panic:{msg}")))
+                            }
+                        };
+                        results.lock().unwrap().push((ci, j, *kind, r));
                     }
                     if det {
                         ctl.unregister_thread();
@@ -140,6 +147,19 @@ pub fn eval_c14(case: &C14Case) -> CaseEval {
         return ev;
     }
     let w = winners[0];
+    if let Err((_, e)) = &w.3 {
+        if e.starts_with("panic:") {
+            // the executing call unwound with a panic (injected through the database): the
+            // block's outcome is whatever was committed before; only the one-shot rule is checked
+            if e != &format!("panic:{}", PANIC_PAYLOAD) {
+                ev.failure = Some(("panic".into(), format!("unexpected panic: {e}")));
+                return ev;
+            }
+            *ev.hist.entry("runs_with_panicking_first_execution".into()).or_insert(0) += 1;
+            ev.nontrivial = total_calls >= 2 && !txs.is_empty();
+            return ev;
+        }
+    }
     // the winner's path decides whether the reference preloads the beneficiary
     let g = GrevmCfg { entry: match w.2 % 3 { 0 => Entry::Execute, 1 => Entry::ParallelExecute(k as u8), _ => Entry::FallbackSequential }, ..sc.grevm.clone() };
     let parallel = takes_parallel_path(&g, txs.len());
